@@ -352,3 +352,69 @@ def family(tier='quick', seed=0):
     for s in range(n_rand):
         add('rand_design', seed=1000 * seed + s)
     return f
+
+
+# ----------------------------------------------------------------------- wide / limb-crossing
+@design
+def wide_ops(w=65, w2=None):
+    """every primitive at a (possibly limb-crossing) width, each result on its own Output"""
+    w2 = w2 or w
+    a, b, s = _io([w, w2, 1])
+    _out(a + b, 'o_add')
+    _out(a - b, 'o_sub')
+    if w <= 70:
+        _out(a * b, 'o_mul')
+    _out(a & b, 'o_and')
+    _out(a | b, 'o_or')
+    _out(a ^ b, 'o_xor')
+    _out(a.nand(b), 'o_nand')
+    _out(~a, 'o_not')
+    _out(a < b, 'o_lt')
+    _out(a > b, 'o_gt')
+    _out(a == b, 'o_eq')
+    _out(pyrtl.select(s, a, b), 'o_mux')
+    _out(pyrtl.concat(a, b), 'o_cat2')
+    _out(pyrtl.concat(a, b, a), 'o_cat3')
+    _out(pyrtl.concat(b, a, s, b), 'o_cat4')
+    _out(a[1:], 'o_sl1')
+    _out(a[::-1], 'o_rev')
+    _out(a[::3], 'o_stride')
+    _out(pyrtl.concat(a, b)[w2 - 1:w2 + 2], 'o_straddle')
+    t = pyrtl.Output(max(1, w - 1), 'o_trunc')
+    t <<= a + b
+    r = pyrtl.Register(w, 'wide_r', reset_value=(1 << (w - 1)) | 1)
+    r.next <<= r + a
+    _out(r, 'o_reg')
+
+
+@design
+def wide_mem(aw=3, dw=70):
+    ra, wa, wd, we = _io([aw, aw, dw, 1])
+    m = pyrtl.MemBlock(bitwidth=dw, addrwidth=aw, name='m', asynchronous=True,
+                       max_read_ports=None)
+    _out(m[ra], 'o_rd')
+    _out(m[wa], 'o_rd2')
+    m[wa] <<= pyrtl.MemBlock.EnabledWrite(wd, we)
+
+
+@design
+def wide_rom(aw=3, dw=66):
+    a, = _io([aw])
+    data = [((0x9e3779b97f4a7c15 * (i + 1)) << 3 | i) % (2 ** dw) for i in range(2 ** aw)]
+    rom = pyrtl.RomBlock(bitwidth=dw, addrwidth=aw, romdata=data, name='rom', asynchronous=True)
+    _out(rom[a], 'o_rom')
+
+
+def wide_family(tier='quick'):
+    f = []
+    ws = [1, 2, 31, 32, 33, 63, 64, 65, 66, 127, 128, 129, 130] if tier == 'quick' else \
+        [1, 2, 3, 31, 32, 33, 63, 64, 65, 66, 95, 127, 128, 129, 130, 191, 192, 193, 255, 256, 257]
+    for w in ws:
+        f.append({'name': 'wide_ops', 'params': {'w': w}})
+    for (w, w2) in [(31, 31), (63, 3), (64, 64), (3, 70), (65, 64)]:
+        f.append({'name': 'wide_ops', 'params': {'w': w, 'w2': w2}})
+    for dw in (1, 63, 64, 65, 70, 130):
+        f.append({'name': 'wide_mem', 'params': {'aw': 3, 'dw': dw}})
+    for dw in (8, 64, 66, 129):
+        f.append({'name': 'wide_rom', 'params': {'aw': 3, 'dw': dw}})
+    return f
